@@ -18,6 +18,25 @@ def is_switch(test, P=None, f=None, _depth=0):
     (the repository's two detection helpers, or a flag set under an isinstance-dask test), not by its name."""
     if isinstance(test, ast.Call) and isinstance(test.func, ast.Name) and test.func.id == "is_input_dask_nested":
         return True
+    if isinstance(test, ast.UnaryOp) and isinstance(test.op, ast.Not):
+        return is_switch(test.operand, P, f, _depth)
+    if isinstance(test, ast.Constant) and isinstance(test.value, bool) and f is not None:
+        # a literal flag (`return True, data`): it is the switch when the path it stands on is decided by an isinstance-dask test
+        st_ = test
+        while st_ is not None and not isinstance(st_, ast.stmt):
+            st_ = getattr(st_, "_parent", None)
+        if st_ is None:
+            return False
+        from ..cfg import guards_of
+
+        pol_ = None
+        for t_, p_ in guards_of(st_):
+            neg = False
+            while isinstance(t_, ast.UnaryOp) and isinstance(t_.op, ast.Not):
+                t_, neg = t_.operand, not neg
+            if _dask_type_test(t_):
+                pol_ = p_ != neg
+        return pol_ is not None and pol_ == test.value
     if not isinstance(test, ast.Name) or f is None:
         return False
     du = get_defuse(f, P)
@@ -50,6 +69,8 @@ def is_switch(test, P=None, f=None, _depth=0):
                         break
                 if okc:
                     continue
+        if d.how == "assign" and v is not None and _dask_type_test(v) and isinstance(v, ast.Call):
+            continue  # flag = isinstance(X, dask...)
         if d.how == "assign" and isinstance(v, ast.Constant) and isinstance(v.value, bool):
             flag += 1
             if v.value:
@@ -92,6 +113,28 @@ def kernel_calls(P, f, stmts):
     return out
 
 
+PLUMBING_CALLS = {"len", "range", "list", "tuple", "zip", "iter", "next", "enumerate", "reversed", "delayed", "add", "iadd", "reduce", "append", "extend", "pop", "isinstance", "TypeError", "ValueError"}
+
+
+def is_fold_helper(P, f):
+    """A helper that only rearranges / sums its arguments: every call in it is list plumbing or operator.add / iadd (possibly as a
+    Dask task), and it does no array arithmetic of its own (index arithmetic on lengths aside).  Such a helper is not a kernel:
+    the in-memory arm, which has a single partial result, needs no counterpart."""
+    for n in walk_no_nested(f.node):
+        if isinstance(n, ast.Call):
+            fn = n.func
+            while isinstance(fn, ast.Call):  # dask.delayed(operator.add)(a, b)
+                fn = fn.func
+            name = fn.attr if isinstance(fn, ast.Attribute) else (fn.id if isinstance(fn, ast.Name) else None)
+            if name not in PLUMBING_CALLS:
+                tg = [t for t in P.resolve_callee(n.func, f) if t[0] == "repo"]
+                if not (tg and all(is_fold_helper(P, t[1]) for t in tg if t[1] is not f)):
+                    return False
+        if isinstance(n, ast.Attribute) and n.attr not in ("append", "extend", "pop", "delayed", "add", "iadd", "reduce", "shape") and not isinstance(getattr(n, "_parent", None), ast.Call):
+            return False
+    return True
+
+
 def stable_roots(P, f, du, expr, site, stmt=None, depth=0):
     """What an argument derives from, expressed in names that exist before the switch: parameters, self attributes,
     locals defined before the site.  Locals defined inside the arm and comprehension variables are resolved."""
@@ -109,23 +152,28 @@ def stable_roots(P, f, du, expr, site, stmt=None, depth=0):
 
     def comp_bind(node):
         p = getattr(node, "_parent", None)
-        while p is not None and not isinstance(p, ast.stmt):
+        child = node
+        while p is not None and not isinstance(p, (ast.FunctionDef, ast.AsyncFunctionDef, ast.Lambda)):
+            gens = []
             if isinstance(p, (ast.ListComp, ast.GeneratorExp, ast.SetComp, ast.DictComp)):
-                for g in p.generators:
-                    it, tg = g.iter, g.target
-                    if isinstance(it, ast.Call) and isinstance(it.func, ast.Name) and it.func.id == "enumerate" and isinstance(tg, ast.Tuple) and len(tg.elts) == 2 and it.args:
-                        if isinstance(tg.elts[0], ast.Name):
-                            scope.setdefault(tg.elts[0].id, None)  # a position
-                        it, tg = it.args[0], tg.elts[1]
-                    if isinstance(it, ast.Call) and isinstance(it.func, ast.Name) and it.func.id == "zip" and isinstance(tg, ast.Tuple) and len(tg.elts) == len(it.args):
-                        for el, a in zip(tg.elts, it.args):
-                            for n in ast.walk(el):
-                                if isinstance(n, ast.Name):
-                                    scope.setdefault(n.id, a)
-                        continue
-                    for n in ast.walk(tg):
-                        if isinstance(n, ast.Name):
-                            scope.setdefault(n.id, it)
+                gens = [(g.iter, g.target) for g in p.generators]
+            elif isinstance(p, (ast.For, ast.AsyncFor)) and child is not p.iter and child is not p.target and inside(p):
+                gens = [(p.iter, p.target)]  # a for statement inside the arm binds its target like a comprehension does
+            for it, tg in gens:
+                if isinstance(it, ast.Call) and isinstance(it.func, ast.Name) and it.func.id == "enumerate" and isinstance(tg, ast.Tuple) and len(tg.elts) == 2 and it.args:
+                    if isinstance(tg.elts[0], ast.Name):
+                        scope.setdefault(tg.elts[0].id, None)  # a position
+                    it, tg = it.args[0], tg.elts[1]
+                if isinstance(it, ast.Call) and isinstance(it.func, ast.Name) and it.func.id == "zip" and isinstance(tg, ast.Tuple) and len(tg.elts) == len(it.args):
+                    for el, a in zip(tg.elts, it.args):
+                        for n in ast.walk(el):
+                            if isinstance(n, ast.Name):
+                                scope.setdefault(n.id, a)
+                    continue
+                for n in ast.walk(tg):
+                    if isinstance(n, ast.Name):
+                        scope.setdefault(n.id, it)
+            child = p
             p = getattr(p, "_parent", None)
 
     def visit(e, st, d):
@@ -191,6 +239,9 @@ def check_branch(P, R, key, rule="BRANCH"):
         only_d, only_n = kd - kn - aux, kn - kd - aux
         # helper that selects a class's statistics in the in-memory arm
         only_n = {k for k in only_n if not k.endswith("_get_statistics_by_class_id")}
+        # fold helpers (pure list plumbing + operator.add) are not kernels
+        only_d = {k for k in only_d if not (P.func(k, required=False) is not None and is_fold_helper(P, P.func(k)))}
+        only_n = {k for k in only_n if not (P.func(k, required=False) is not None and is_fold_helper(P, P.func(k)))}
         what = f"switch `{src(site.test)}`: kernels {sorted(x.split(':')[-1] for x in (kd | kn) - aux)}"
         if only_d or only_n:
             R.violation(rule + ".kernels", key, what, f"kernel(s) {sorted(only_d)} only in the Dask arm / {sorted(only_n)} only in the in-memory arm: the two arms do not run the same computation", site.lineno)
@@ -620,7 +671,7 @@ def fold_whole(P, f, name, depth=0):
         verdicts.append("whole-if-pairs-ok")  # a pairing tree over this very list: COVER.pairs decides about the odd tail
     # `x = list(name)` aliases
     for st, t, v, k in stores(f):
-        if isinstance(t, ast.Name) and t.id != name and isinstance(v, ast.Call) and src(v.func) in ("list", "tuple") and v.args and isinstance(v.args[0], ast.Name) and v.args[0].id == name and depth < 3:
+        if isinstance(t, ast.Name) and t.id != name and isinstance(v, ast.Call) and src(v.func) in ("list", "tuple", "iter") and v.args and isinstance(v.args[0], ast.Name) and v.args[0].id == name and depth < 3:
             verdicts.append(fold_whole(P, f, t.id, depth + 1))
     if "partial" in verdicts:
         return "partial"
